@@ -292,7 +292,7 @@ func c05GenCopyCase(r *VRand, stats *VStats) *c05CopyCase {
 		if r.Bool() {
 			c.content = []byte("GET /index.html HTTP/1.1\r\nHost: www.example.com\r\nUser-Agent: x\r\n\r\n")
 		} else {
-			c.content = c05ClientHello(r, "tls.example.com")
+			c.content = c05ClientHello(r, "tls.example.com", 300)
 		}
 	}
 	nch := r.Intn(6)
